@@ -10,7 +10,9 @@ CONSTANTS
   MaxW = 2
   LookupMode = "fresh"
   MaxConns = 2
+  LookupLocks = "single"
+  MaxWrites = 0
   Cases <- SessCases
 VIEW view
-INVARIANTS NoBytes NoEarlyClose KeepsReading MatchSound ConsumeExact FoundWhenComplete NeverDropsMatching MarkedUsed RegistryFree DeadlineUnpredictable
+INVARIANTS MatchSound
 CHECK_DEADLOCK FALSE
